@@ -1086,16 +1086,17 @@ func (c *FnCtx) applyContract(bc *blockCtx, spec *FuncSpec, cc *ssa.CallCommon, 
 	st := bc.st
 	env0 := mkEnv(pre)
 	targets := c.modTargets(env0, append(append([]*Expr(nil), spec.Modifies...), spec.TrustedModifies...), spec.Pos)
+	if !spec.Pure {
+		// the callee may allocate: values it stores may be newer than the pre-call allocation mark
+		na := c.sc.fresh("alloc", "Int")
+		c.sc.assert("(>= " + na + " " + st.alloc + ")")
+		st.alloc = na
+	}
 	c.foreignHavoc = foreign
 	c.havocTargets(st, targets)
 	c.foreignHavoc = false
 	if len(spec.TrustedEnsures) > 0 {
 		c.assumed[short+" (abstract clauses; "+spec.TrustedWhy+")"] = true
-	}
-	if !spec.Pure {
-		na := c.sc.fresh("alloc", "Int")
-		c.sc.assert("(>= " + na + " " + st.alloc + ")")
-		st.alloc = na
 	}
 	// lock effects
 	for _, a := range spec.Acquires {
